@@ -61,20 +61,20 @@ noncomputable def dW (close1 : ℝ → Bool) (u : Bool) (axes : List (Axis ℝ))
     else twFn w i
 
 theorem tInner_eq_wsum (w : TW ℝ) (n : Nat) (x y : Nat → 𝕜) :
-    tInner (ops 𝕜) w n x y = ∑ i ∈ range n, x i * starRingEnd 𝕜 (y i) * ((twFn w i : ℝ) : 𝕜) := by
+    tInner (ops 𝕜).toIOps w n x y = ∑ i ∈ range n, x i * starRingEnd 𝕜 (y i) * ((twFn w i : ℝ) : 𝕜) := by
   cases w <;> simp [tInner, innerDefault, sumTo_eq_sum, twFn, Finset.mul_sum, mul_assoc] <;>
     exact Finset.sum_congr rfl (fun i _ => by ring)
 
 theorem dInner_eq_wsum (close1 : ℝ → Bool) (u : Bool) (axes : List (Axis ℝ)) (w : TW ℝ)
     (p : Expo ℝ) (x y : Nat → 𝕜) :
-    dInner (ops 𝕜) close1 u axes w p x y =
+    dInner (ops 𝕜).toIOps close1 u axes w p x y =
       ∑ i ∈ range (axesSize axes), x i * starRingEnd 𝕜 (y i) * ((dW close1 u axes w p i : ℝ) : 𝕜) := by
   unfold dInner dW
   split_ifs <;> simp [tInner_eq_wsum] <;>
     exact Finset.sum_congr rfl (fun i _ => by push_cast; ring)
 
 theorem pInner_eq_wsum (w : PW ℝ) (m : Nat) (a : Nat → 𝕜) :
-    pInner (ops 𝕜) w m a = ∑ k ∈ range m, a k * ((pwFn w k : ℝ) : 𝕜) := by
+    pInner (ops 𝕜).toIOps w m a = ∑ k ∈ range m, a k * ((pwFn w k : ℝ) : 𝕜) := by
   cases w <;> simp [pInner, sumTo_eq_sum, pwFn, Finset.mul_sum] <;>
     exact Finset.sum_congr rfl (fun i _ => by ring)
 
@@ -167,7 +167,7 @@ theorem wsum_self_eq_zero (n : Nat) (ω : Nat → ℝ) (hω : ∀ i, i < n → 0
 /-- `⟨x, x⟩` is a non-negative real, zero exactly for the zero element. -/
 theorem inner_self_real (close1 : ℝ → Bool) (s : Space ℝ) (hs : SpacePos s) (x : El 𝕜)
     (hx : Shaped s x) :
-    ∃ r : ℝ, 0 ≤ r ∧ Space.inner (ops 𝕜) close1 s x x = (r : 𝕜) ∧ (r = 0 ↔ ZeroOn s x) := by
+    ∃ r : ℝ, 0 ≤ r ∧ Space.inner (ops 𝕜).toIOps close1 s x x = (r : 𝕜) ∧ (r = 0 ↔ ZeroOn s x) := by
   induction s generalizing x with
   | tens n w p =>
     cases x with
@@ -375,7 +375,7 @@ theorem tNorm_two_sq (close1 : ℝ → Bool) (w : TW ℝ) (n : Nat) (hw : twPos 
     rw [mul_pow, Real.sq_sqrt hc.le, Real.sq_sqrt hS, Finset.mul_sum]
     exact Finset.sum_congr rfl (fun i _ => by ring)
   | arr w =>
-    have hre : RCLike.re (tInner (ops 𝕜) (.arr w) n x x) = ∑ i ∈ range n, ‖x i‖ ^ 2 * w i := by
+    have hre : RCLike.re (tInner (ops 𝕜).toIOps (.arr w) n x x) = ∑ i ∈ range n, ‖x i‖ ^ 2 * w i := by
       rw [tInner_eq_wsum, wsum_self, RCLike.ofReal_re]; rfl
     have hS : 0 ≤ ∑ i ∈ range n, ‖x i‖ ^ 2 * w i :=
       Finset.sum_nonneg (fun i hi => mul_nonneg (sq_nonneg _) (hw i (mem_range.mp hi)).le)
